@@ -154,7 +154,8 @@ def tlc(module, cfg=None, wd=None, env=None, workers=4, timeout=1800, simulate=N
     mod_dir = os.path.dirname(mod_path)
     cfg_path = os.path.join(SPEC, (cfg or module) + ".cfg") if not (cfg and os.path.isabs(cfg)) else cfg
     wd = wd or workdir("tlc_misc", clean=False)
-    meta = os.path.join(wd, "tlcmeta_%s_%d" % (os.path.basename(module), os.getpid()))
+    import uuid
+    meta = os.path.join(wd, "tlcmeta_%s_%s" % (os.path.basename(module), uuid.uuid4().hex[:10]))
     jopts = "-Xss1g"
     if deque:
         jopts += " -Dtlc2.tool.queue.IStateQueue=StateDeque"
